@@ -255,8 +255,12 @@ def rule_checkpoint(chk, prog):
             str(sorted(allowed_free)), str(sorted(free)))
   g = prog.func(f'{TI}.nested_checkpoint_scan')
   src = ast.unparse(g.node)
-  chk.check('jax.checkpoint' in unparse(g.args.kw_defaults[-1]) if g.args.kw_defaults and g.args.kw_defaults[-1] is not None else False, rule,
-            f'{g.qualname}: the default checkpoint function is jax.checkpoint (value-transparent)', unparse(g.args.kw_defaults[-1]) if g.args.kw_defaults and g.args.kw_defaults[-1] is not None else 'none', (g.file, g.lineno))
+  dflt = None
+  for a_, d_ in list(zip(g.args.kwonlyargs, g.args.kw_defaults)) + list(zip(reversed(g.args.args), reversed(g.args.defaults))):
+    if a_.arg == 'checkpoint_fn':
+      dflt = d_
+  chk.check(dflt is not None and 'jax.checkpoint' in unparse(dflt), rule,
+            f'{g.qualname}: the default checkpoint function is jax.checkpoint (value-transparent)', unparse(dflt) if dflt is not None else 'none', (g.file, g.lineno))
   chk.at_least(rule, 4)
 
 
